@@ -2,6 +2,7 @@ package icmp
 
 import (
 	"context"
+	"errors"
 	"net"
 	"sync"
 	"time"
@@ -135,6 +136,9 @@ func (s *Session) Context() context.Context {
 	return s.ctx
 }
 
+// errSessionClosed is returned by Encrypt and Decrypt after Close.
+var errSessionClosed = errors.New("ICMP session closed")
+
 // Close terminates the session and releases resources.
 func (s *Session) Close() error {
 	s.mu.Lock()
@@ -209,6 +213,12 @@ func (s *Session) Encrypt(plaintext []byte) ([]byte, error) {
 	s.mu.RLock()
 	defer s.mu.RUnlock()
 
+	// Close clears the session key; an echo reply that was already read from
+	// the socket must not fall back to the "no key" plaintext path then.
+	if s.closed {
+		return nil, errSessionClosed
+	}
+
 	if s.SessionKey == nil {
 		return plaintext, nil
 	}
@@ -223,6 +233,10 @@ func (s *Session) Encrypt(plaintext []byte) ([]byte, error) {
 func (s *Session) Decrypt(ciphertext []byte) ([]byte, error) {
 	s.mu.RLock()
 	defer s.mu.RUnlock()
+
+	if s.closed {
+		return nil, errSessionClosed
+	}
 
 	if s.SessionKey == nil {
 		return ciphertext, nil
